@@ -410,9 +410,12 @@ func Generate(r *hlib.Rng, class string, mtime int64) *Gen {
 		if r.Chance(1, 2) {
 			g.Subnet(locB, "fd00::/16", "m1")
 		}
-		if r.Chance(1, 3) {
+		if r.Chance(1, 2) {
+			// a client-subnet map for some of the zones: names with an M map and no 8 map, both, neither
 			for _, z := range g.Zones {
-				g.Map("8", z, "e1", true)
+				if r.Chance(1, 2) {
+					g.Map("8", z, "e1", true)
+				}
 			}
 			g.Subnet(locA, "10.0.0.0/8", "e1")
 			g.Subnet(locB, "172.16.0.0/12", "e1")
